@@ -81,6 +81,15 @@ type cycT struct {
 	Map  map[string]*cycT
 	Arr  [1]*cycT
 }
+type cycShape interface{ Area() int }
+type cycRing struct {
+	ID   int
+	Next cycShape
+}
+
+func (r *cycRing) Area() int { return r.ID }
+
+type cycAny interface{}
 type cycSL []cycSL
 type cycM map[string]cycM
 type cycP *cycP
@@ -159,6 +168,24 @@ func init() {
 			m := map[int]any{}
 			m[1] = map[string]any{"a": []any{m}}
 			v = m
+		case 12: // through a non-empty interface type
+			r := &cycRing{ID: 1}
+			r.Next = r
+			v = r
+		case 13:
+			r := &cycRing{ID: 2}
+			l := []cycShape{nil, r}
+			r.Next = &cycRing{ID: 3, Next: r}
+			v = l
+		case 14:
+			r := &cycRing{ID: 4}
+			m := map[string]cycShape{"r": r}
+			r.Next = &cycRing{Next: m["r"]}
+			v = m
+		case 15: // through a named empty interface type
+			s := []cycAny{nil}
+			s[0] = s
+			v = s
 		default:
 			s := make([]any, 1)
 			s[0] = &s
@@ -372,7 +399,7 @@ func chainGraph(n int, kinds string, closeTo int) string {
 }
 
 func runC06(h *H) {
-	for k := 0; k < 12; k++ {
+	for k := 0; k < 17; k++ {
 		h.DoRisky("json.cyctyped", strconv.Itoa(k))
 	}
 	for k := 0; k < 9; k++ {
